@@ -32,3 +32,67 @@ MUTANTS = [
     ("spike_min_to_max", Q, "np.minimum(np.abs(ref[:-1]), np.abs(ref[1:]))", "np.maximum(np.abs(ref[:-1]), np.abs(ref[1:]))",
      ["C09"]),
 ]
+A = "ioos_qc/axds.py"
+MUTANTS += [
+    ("gross_fail_lower_le", Q, "flag_arr[(inp < sspan.minv) | (inp > sspan.maxv)] = QartodFlags.FAIL",
+     "flag_arr[(inp <= sspan.minv) | (inp > sspan.maxv)] = QartodFlags.FAIL", ["C03"]),
+    ("gross_suspect_upper_ge", Q, "flag_arr[(inp < uspan.minv) | (inp > uspan.maxv)] = QartodFlags.SUSPECT",
+     "flag_arr[(inp < uspan.minv) | (inp >= uspan.maxv)] = QartodFlags.SUSPECT", ["C03"]),
+    ("gross_no_sort_suspect", Q, "uspan = span(*sorted(suspect_span))", "uspan = span(*suspect_span)", ["C03"]),
+    ("gross_contain_check_le", Q, "if uspan.minv < sspan.minv or uspan.maxv > sspan.maxv:",
+     "if uspan.minv < sspan.minv and uspan.maxv > sspan.maxv:", ["C03"]),
+    ("valid_start_exclusive_default", A, "if start_inclusive is True:\n                flag_arr[inp < valid_span[0]]",
+     "if start_inclusive is not True:\n                flag_arr[inp < valid_span[0]]", ["C03"]),
+    ("valid_end_ge_to_gt", A, "flag_arr[inp >= valid_span[1]] = QartodFlags.FAIL", "flag_arr[inp > valid_span[1]] = QartodFlags.FAIL",
+     ["C03"]),
+    ("valid_missing_upper_ignored_lower", A, "    if not isnan(valid_span[1]):", "    if not isnan(valid_span[0]):", ["C03"]),
+]
+MUTANTS += [
+    ("compare_priority_swap_good_unknown", Q, "        QartodFlags.UNKNOWN,\n        QartodFlags.GOOD,\n        QartodFlags.SUSPECT,\n        QartodFlags.FAIL,\n    ]",
+     "        QartodFlags.GOOD,\n        QartodFlags.UNKNOWN,\n        QartodFlags.SUSPECT,\n        QartodFlags.FAIL,\n    ]", ["C04"]),
+    ("compare_ignores_mask", Q, "            idx = np.where(v == p)[0]", "            idx = np.where(np.ma.getdata(v) == p)[0]", ["C04"]),
+    ("compare_first_vector_wins_fail", Q, "    return result.astype(\"uint8\")", "    result[np.where(vectors[0] == QartodFlags.SUSPECT)[0]] = QartodFlags.SUSPECT\n    return result.astype(\"uint8\")", ["C04"]),
+    ("compare_default_unknown", Q, "    result.fill(QartodFlags.MISSING)", "    result.fill(QartodFlags.UNKNOWN)", ["C04"]),
+]
+R = "ioos_qc/argo.py"
+UT = "ioos_qc/utils.py"
+MUTANTS += [
+    ("roc_ge", Q, "flag_arr[roc > threshold] = QartodFlags.SUSPECT", "flag_arr[roc >= threshold] = QartodFlags.SUSPECT", ["C10"]),
+    ("roc_minutes", Q, """        np.diff(inp) / np.diff(tinp).astype("timedelta64[s]").astype(float),
+    )
+
+    with np.errstate(invalid="ignore"):
+        flag_arr[roc > threshold]""", """        np.diff(inp) / np.diff(tinp).astype("timedelta64[m]").astype(float),
+    )
+
+    with np.errstate(invalid="ignore"):
+        flag_arr[roc > threshold]""", ["C10"]),
+    ("roc_no_abs", Q, "    roc[1:] = np.abs(\n        np.diff(inp) /", "    roc[1:] = (\n        np.diff(inp) /", ["C10", "C17"]),
+    ("roc_shapecheck_removed", Q, "    if inp.size != tinp.size:\n", "    if False:\n", ["C10"]),
+    ("speed_latlon_swapped", UT, "return Geodesic.WGS84.Inverse(y1, x1, y2, x2)[\"s12\"]", "return Geodesic.WGS84.Inverse(x1, y1, x2, y2)[\"s12\"]", ["C10", "C14"]),
+    ("speed_fail_ge", R, "flag_arr[speed > fail_threshold] = QartodFlags.FAIL", "flag_arr[speed >= fail_threshold] = QartodFlags.FAIL", ["C10"]),
+    ("speed_order_swapped", R, """    with np.errstate(invalid="ignore"):
+        flag_arr[speed > suspect_threshold] = QartodFlags.SUSPECT
+
+    with np.errstate(invalid="ignore"):
+        flag_arr[speed > fail_threshold] = QartodFlags.FAIL
+""", """    with np.errstate(invalid="ignore"):
+        flag_arr[speed > fail_threshold] = QartodFlags.FAIL
+
+    with np.errstate(invalid="ignore"):
+        flag_arr[speed > suspect_threshold] = QartodFlags.SUSPECT
+""", ["C10", "C16"]),
+    ("speed_first_good", R, "    # first value is unknown, since we have no speed data for the first point\n    flag_arr[0] = QartodFlags.UNKNOWN", "    pass", ["C10"]),
+    ("speed_minutes", R, 'dist[1:] / np.diff(tinp).astype("timedelta64[s]").astype(float)', 'dist[1:] / np.diff(tinp).astype("timedelta64[m]").astype(float)', ["C10"]),
+    ("speed_shape_tinp_unchecked", R, "if lon.shape != lat.shape or lon.shape != tinp.shape:", "if lon.shape != lat.shape:", ["C10"]),
+]
+MUTANTS += [
+    ("flat_count_plus1", Q, "count = (int(test_threshold) / time_interval).astype(int)", "count = (int(test_threshold) / time_interval).astype(int) + 1", ["C11"]),
+    ("flat_nfill_off_by_one", Q, "n_fill = min(len(inp), count)", "n_fill = min(len(inp), max(count - 1, 0))", ["C11"]),
+    ("flat_range_le", Q, "np.ma.filled(data_range < tolerance, fill_value=False)", "np.ma.filled(data_range <= tolerance, fill_value=False)", ["C11"]),
+    ("flat_order_swapped", Q, "    run_test(suspect_threshold, QartodFlags.SUSPECT)\n    run_test(fail_threshold, QartodFlags.FAIL)", "    run_test(fail_threshold, QartodFlags.FAIL)\n    run_test(suspect_threshold, QartodFlags.SUSPECT)", ["C11", "C16"]),
+    ("flat_short_series_limit_2", Q, "    if len(inp) < 3:\n        flag_arr[inp.mask]", "    if len(inp) < 2:\n        flag_arr[inp.mask]", ["C11"]),
+    ("flat_round_instead_of_floor", Q, "count = (int(test_threshold) / time_interval).astype(int)", "count = np.round(int(test_threshold) / time_interval).astype(int)", ["C11"]),
+    ("flat_mean_interval", Q, "time_interval = np.median(np.diff(tinp)).astype(\"timedelta64[s]\").astype(float)\n\n    def rolling_window", "time_interval = np.median(np.diff(tinp)).astype(\"timedelta64[m]\").astype(\"timedelta64[s]\").astype(float)\n\n    def rolling_window", ["C11"]),
+    ("flat_short_missing_regress", Q, "        flag_arr[inp.mask] = QartodFlags.MISSING\n        return flag_arr.reshape(original_shape)\n", "        return flag_arr.reshape(original_shape)\n", ["C11", "C02"]),
+]
